@@ -253,3 +253,20 @@ pub fn companion_payload(rng: &mut crate::rng::Rng) -> Vec<u8> {
     }
     v
 }
+
+/// The exact companion payload of an ordered pair of signatures: `target` completed, `comp`'s
+/// literals at every wildcard position of the target where it has one (0x2a elsewhere).
+pub fn companion_exact(target: &Sig, comp: &Sig) -> Vec<u8> {
+    target
+        .pat
+        .iter()
+        .enumerate()
+        .map(|(j, p)| match p {
+            Some(b) => *b,
+            None => match comp.pat.get(j) {
+                Some(Some(b)) => *b,
+                _ => 0x2a,
+            },
+        })
+        .collect()
+}
